@@ -258,3 +258,81 @@ func limitQueries(thorough bool) []*Query {
 	}
 	return out
 }
+
+// ---------------------------------------------------------------------------------------------------------
+// keyword family: attribute names that collide with intrinsics / special-cased words x every scope spelling x every
+// position (condition, aggregator argument, tags / values plans).  Reference: a scoped spelling always means the
+// attribute, the bare words duration and name mean the intrinsics, any other bare word has no meaning (the planner
+// is expected to reject it).
+
+type kwCase struct {
+	q    *Query
+	api  string
+	key  string
+	mode string
+}
+
+func keywordCases(thorough bool) []kwCase {
+	var out []kwCase
+	mark := leaf(".mark", "=", `"k"`)
+	names := append(keywordAttrNames(), "service.name")
+	for _, r := range names {
+		full := thorough || r == "duration" || r == "name"
+		for _, sc := range []string{".", "span.", "resource.", ""} {
+			l := sc + r
+			// condition position
+			terms := []*Expr{leaf(l, "=", "7"), leaf(l, ">", "100"), leaf(l, "=", `"zzz"`), leaf(l, "!=", `"zzz"`), leaf(l, "=~", `"^z"`)}
+			if l == "duration" {
+				terms = append(terms, leaf(l, ">", "1s"), leaf(l, "=", "7ns"), leaf(l, "<", "1s"))
+			}
+			if l == "name" {
+				terms = append(terms, leaf(l, "=", `"op1"`), leaf(l, "!~", `"^z"`))
+			}
+			for i, t := range terms {
+				out = append(out, kwCase{q: single(sel(t)), api: "search"})
+				if sc != "" && (i == 0 || i == 2) {
+					out = append(out, kwCase{q: single(sel(and(mark, t))), api: "search"})
+					out = append(out, kwCase{q: single(sel(t)), api: "tags"})
+				}
+			}
+			// aggregator argument
+			if sc == "" && r != "duration" && r != "name" {
+				continue // `| avg(status) > 1`: a bare word without meaning; one probe per word below
+			}
+			fns := []string{"max"}
+			if full {
+				fns = []string{"avg", "min", "max", "sum"}
+			}
+			type ct struct{ cmp, thr string }
+			cts := []ct{{">", "5"}, {"<", "100"}}
+			if full {
+				cts = append(cts, ct{">", "100"}, ct{"=", "7"})
+			}
+			if l == "duration" {
+				cts = []ct{{">", "1s"}, {"<", "1s"}, {">", "5ns"}, {"=", "7ns"}}
+			}
+			for _, fn := range fns {
+				for _, c := range cts {
+					a := Agg{fn, l, c.cmp, c.thr}
+					out = append(out, kwCase{q: single(selAgg(mark, a)), api: "search"})
+					if r == "duration" || r == "name" {
+						// chained, and executed once per portion on the complex path (the plan is reused)
+						out = append(out, kwCase{q: chain2(selAgg(mark, a), "&&", sel(mark)), api: "search"})
+						out = append(out, kwCase{q: chain2(sel(leaf("name", "=", `"zzz"`)), "||", selAgg(mark, a)), api: "search"})
+						out = append(out, kwCase{q: single(selAgg(mark, a)), api: "search", mode: "complex2"})
+					}
+				}
+			}
+			out = append(out, kwCase{q: single(selAgg(mark, Agg{"count", l, ">", "1"})), api: "search"})
+			// the aggregator argument also feeds the row pre-filter of the tags / values plans
+			out = append(out, kwCase{q: single(selAgg(mark, Agg{"max", l, ">", "5"})), api: "tags"})
+		}
+		out = append(out, kwCase{q: single(selAgg(mark, Agg{"max", r, ">", "5"})), api: "search"}) // bare word as aggregator argument
+		// values of the tag r over the marked spans and over the spans selected through r itself
+		if r != "name" && r != "service.name" {
+			out = append(out, kwCase{q: single(sel(mark)), api: "values", key: r})
+			out = append(out, kwCase{q: single(sel(leaf("."+r, "=", "7"))), api: "values", key: r})
+		}
+	}
+	return out
+}
